@@ -30,7 +30,7 @@ class Args:
 
 
 # ------------------------------------------------------------------ C17 N1
-@harness("gen.prob_to_str", props=["C17"], jobs=lambda tier, seed: [dict(q=q) for q in ("whole", "inject", "mono", "range")],
+@harness("gen.prob_to_str", props=["C17"], jobs=lambda tier, seed: [dict(q=q, _qtimeout_ms=300000) for q in ("whole", "inject", "mono", "range")],
          covers=[], stubs=["int -> IEEE truncation/ValueError-on-NaN model", "str -> numeric token", "round -> IEEE half-even model"],
          bounds="all doubles (FP mode, z3 Float64): k any integral double in [1,99]; p,q any doubles in (0,1)",
          desc="real prob_to_str in IEEE mode: fl(k/100) renders k for every k=1..99; different whole percents render "
